@@ -586,7 +586,9 @@ theorem core_failure_stops_all {cfg : Cfg} (hcw : cfg.coreWatched = true) {s : S
       · rename_i hh; rw [hcr] at hh; exact absurd hh.2.2 (by simp)
       · split at h
         · rename_i hh; cases h; exact ⟨hh.2.1, by simp [hh.2.1]⟩
-        · cases h
+        · split at h
+          · rename_i hh; rw [hc] at hh; exact absurd hh.2.2.2 (by simp)
+          · cases h
     · cases h
   · intro hnr
     rcases hE.coreWatcherSt with h | h
